@@ -93,6 +93,12 @@ def obligations(tier, ctx):
     for kind in ((4,) if tier == "quick" else (4, 3, 2, 5)):
         obs.append(Ob(name=f"many_{kind}", params=[("k", "int")], pre=[f"0 <= k < {ncnt}"], call=f"H.many({kind}, k, 2000, {clim})", backend="P", timeout=900,
                       family="count: c-1, c, c+1 distractors before the answer"))
+    for fe in (0, 1, 2):
+        for reuse in (True, False):
+            obs.append(Ob(name=f"two_calls_e{fe}_{'sameid' if reuse else 'otherid'}", params=[("g0", "int"), ("g1", "int"), ("g2", "int"), ("T1", "int")],
+                          pre=["0 <= g0 <= 60", "0 <= g1 <= 100", "1 <= g2 <= 100", "61 <= T1 <= 130"], call=f"H.two_calls({fe}, {reuse}, g0, g1, g2, T1)",
+                          real=f"H.two_calls_real({fe}, {reuse}, g0, g1, g2, T1)", backend="P", timeout=300,
+                          family="an earlier call on the same streams (timed out / failed / answered), then a call with the same or another id"))
     from symcheck.runner import mirror
     obs += mirror(obs, r"^(sched_0|sched_2|sched_20|sched_31|cb_2|cb_50|autoid_0)$", "F", limit=(3 if tier == "quick" else None))
     return obs
